@@ -38,6 +38,10 @@ pub enum Fail {
     ZeroOnce(u32),
     /// the j-th write call panics
     PanicAt(u32),
+    /// a sink that never fails but is slow to take anything: every even-numbered call answers
+    /// `Interrupted`, every odd-numbered call accepts ONE byte (any number of interruptions inside one
+    /// hand-over; the retry on `Interrupted` must not be rationed)
+    Stutter,
 }
 
 #[derive(Clone, Debug, PartialEq, Eq)]
@@ -108,6 +112,13 @@ impl Write for Sink {
                 st.panics += 1;
                 drop(st);
                 panic!("scripted sink panic");
+            }
+            Fail::Stutter => {
+                if i % 2 == 0 {
+                    return Err(io::Error::new(io::ErrorKind::Interrupted, "scripted interrupt"));
+                }
+                st.log.push(buf[0]);
+                return Ok(1);
             }
             _ => {}
         }
@@ -511,9 +522,10 @@ fn key_of(cfg: &Cfg, w: &World) -> Vec<u8> {
     // sink script state: how close are we to the scripted failure
     let horizon = match cfg.fail {
         Fail::None => 0,
+        Fail::Stutter => 2,
         Fail::ErrOnce(j) | Fail::ErrOnceKind(j, _) | Fail::ErrFrom(j) | Fail::ZeroOnce(j) | Fail::PanicAt(j) => j + 1,
     };
-    k.push(s.write_calls.min(horizon) as u8);
+    k.push(if matches!(cfg.fail, Fail::Stutter) { (s.write_calls % 2) as u8 } else { s.write_calls.min(horizon) as u8 });
     k.push(s.interrupts_left as u8);
     k
 }
@@ -690,6 +702,7 @@ fn fail_json(f: Fail) -> Value {
         Fail::ErrFrom(j) => json!(["err_from", j]),
         Fail::ZeroOnce(j) => json!(["zero_once", j]),
         Fail::PanicAt(j) => json!(["panic_at", j]),
+        Fail::Stutter => json!(["stutter", 0]),
     }
 }
 
@@ -807,6 +820,7 @@ pub fn configs(mode: Mode, tier: Tier) -> Vec<(Cfg, usize)> {
         }
         f.push(Fail::PanicAt(0));
         f.push(Fail::PanicAt(1));
+        f.push(Fail::Stutter);
         // other error kinds: UnexpectedEof, WouldBlock, BrokenPipe, WriteZero
         for k in [1u8, 2, 4, 13] {
             f.push(Fail::ErrOnceKind(1, k));
@@ -881,6 +895,7 @@ pub fn replay_file(v: &Value) -> (bool, String) {
         "err_once_kind" => Fail::ErrOnceKind(j, v["cfg"]["fail"][2].as_u64().unwrap_or(0) as u8),
         "err_from" => Fail::ErrFrom(j),
         "zero_once" => Fail::ZeroOnce(j),
+        "stutter" => Fail::Stutter,
         _ => Fail::PanicAt(j),
     };
     let cfg = Cfg {
